@@ -92,3 +92,40 @@ Proof.
   - vm_compute. reflexivity.
   - vm_compute. reflexivity.
 Qed.
+
+(* every parser-accepted stream through every entry point (review r3, C11 issue 2) *)
+Lemma sparse_shape v s n ts : sparse v s = Some (n, ts) ->
+  exists t a b c r, s = t :: a :: b :: c :: r /\ (t = 0x10 \/ t = 0x11).
+Proof.
+  destruct v; cbn [sparse]; unfold sparse10, sparse11; destruct (wfbb s); cbn [negb]; try discriminate;
+  destruct s as [|t [|a [|b [|c r]]]]; try discriminate.
+  all: try (destruct t as [|p]; try discriminate; repeat (destruct p; try discriminate)).
+  all: intros _; repeat eexists; auto.
+Qed.
+
+Theorem decode_sparse_entry_points m v s n ts : sparse v s = Some (n, ts) ->
+  exists x, expand ts = Some x /\ lenN x = n /\
+    lz10_decompress m s = Ok x /\ lz13_decompress m s = Ok x /\
+    (forall a b c, lz13_decompress m (0x13 :: a :: b :: c :: s) = Ok x) /\
+    cf_decompress CF10 m s = Ok x /\ cf_decompress CF13 m s = Ok x.
+Proof.
+  intros H. destruct (decode_sparse m v s n ts H) as (x & He & Hd & Hl).
+  destruct (sparse_shape _ _ _ _ H) as (t & a & b & c & r & -> & Ht).
+  assert (Hb : lz13_decompress m (t :: a :: b :: c :: r) = Ok x).
+  { rewrite lz13_bare; [exact Hd| |]; destruct Ht; subst; discriminate. }
+  exists x. split; [exact He|]. split; [exact Hl|]. split; [exact Hd|]. split; [exact Hb|].
+  split; [intros a' b' c'; rewrite lz13_wrapped; exact Hd|]. split; [exact Hd | exact Hb].
+Qed.
+
+(* the extended LZ11 header cut short *)
+Theorem short_ext_header_is_error m r : (length r < 4)%nat ->
+  lz10_decompress m (0x11 :: 0 :: 0 :: 0 :: r) = Err EInvalidInput /\
+  lz13_decompress m (0x11 :: 0 :: 0 :: 0 :: r) = Err EInvalidInput /\
+  (forall a b c, lz13_decompress m (0x13 :: a :: b :: c :: 0x11 :: 0 :: 0 :: 0 :: r) = Err EInvalidInput).
+Proof.
+  intros H.
+  assert (Hd : decompress_lz m (0x11 :: 0 :: 0 :: 0 :: r) = Err EInvalidInput).
+  { destruct r as [|r0 [|r1 [|r2 [|r3 r]]]]; cbn [length] in H; try lia; reflexivity. }
+  split; [exact Hd|]. split; [rewrite lz13_bare by (intro; discriminate); exact Hd|].
+  intros a b c. rewrite lz13_wrapped. exact Hd.
+Qed.
